@@ -40,6 +40,65 @@ def _cmp(st, subject, val, exp, rtol=0.0, atol=0.0, what='', inv='order'):
                         f'object: {d}')
 
 
+def _expect(st, fn):
+    """Value a *fresh* object gives for the request.  For a seeded subset of
+    observations (op['iso']) it is computed in a forked child that has seen
+    nothing of this run - neither the object under test nor any decoy - so
+    that state kept outside the instances (class attributes, module-level
+    caches) cannot make both sides of the comparison wrong in the same way.
+    """
+    if not getattr(st, 'iso', False):
+        return fn()
+    import os
+    import pickle
+    r, w = os.pipe()
+    pid = os.fork()
+    if pid == 0:
+        code = 0
+        try:
+            os.close(r)
+            val = fn()
+            try:
+                blob = pickle.dumps(('ok', val), protocol=4)
+            except Exception:  # noqa: BLE001 - unpicklable value
+                blob = pickle.dumps(('unpicklable', None), protocol=4)
+            with os.fdopen(w, 'wb') as fh:
+                fh.write(blob)
+        except BaseException:  # noqa: BLE001
+            code = 3
+        finally:
+            os._exit(code)
+    os.close(w)
+    with os.fdopen(r, 'rb') as fh:
+        blob = fh.read()
+    os.waitpid(pid, 0)
+    try:
+        tag, val = pickle.loads(blob)
+    except Exception:  # noqa: BLE001
+        tag, val = 'failed', None
+    if tag != 'ok':
+        st.stats.probe('isolated_expectation_fallback')
+        return fn()
+    st.stats.probe('expectation_from_pristine_process')
+    return val
+
+
+def _perturbed(scene):
+    """Scene with every float image scaled and shifted (for decoys)."""
+    def f(v):
+        if isinstance(v, dict) and '__npy__' in v:
+            a = dec(v)
+            if a.dtype.kind == 'f':
+                return enc(a * 1.37 + 0.11)
+            return v
+        if isinstance(v, dict):
+            return {k: f(x) for k, x in v.items()}
+        if isinstance(v, list):
+            return [f(x) for x in v]
+        return v
+    return f(scene)
+
+
 def _short(v):
     s = repr(v)
     return s if len(s) < 200 else s[:200] + '...'
@@ -166,8 +225,8 @@ class BackgroundFamily:
         attr = op['attr']
         val = self._get(st.obj, attr)
         st.trace.add('read', attr, digest(val))
-        fresh = self.build(st.cfg, st.scene)
-        exp = self._get(fresh, attr)
+        exp = _expect(st, lambda: self._get(self.build(st.cfg, st.scene),
+                                            attr))
         # null test: two fresh objects must agree
         if diff(exp, self._get(self.build(st.cfg, st.scene), attr)):
             st.stats.probe('nondeterministic_skips')
@@ -188,6 +247,12 @@ class BackgroundFamily:
                 and st.cfg['filter_size'] != 1):
             st.stats.probe('rms_mesh_before_bkg_mesh_with_threshold')
         st.seen.append(attr)
+
+    def decoy(self, st):
+        o = call(self.build, st.cfg, _perturbed(st.scene))
+        if not isinstance(o, Raised):
+            for a in ('background_rms', 'background', 'background_median'):
+                call(getattr, o, a)
 
     def simpler_cfgs(self, cfg):
         for k, v in (('mask', False), ('coverage', False), ('unit', False),
@@ -408,8 +473,8 @@ class ProfileFamily:
             history = st.gauss_frozen
         val = self._read(o, attr)
         st.trace.add('read', attr, digest(val))
-        ref = self._reference(st, history)
-        exp = self._read(ref, attr)
+        exp = _expect(st, lambda: self._read(self._reference(st, history),
+                                             attr))
         rtol = PROF_RTOL if history else 0.0
         if attr.startswith('gaussian'):
             rtol = 1e-7
@@ -419,6 +484,15 @@ class ProfileFamily:
         if len([c for c in st.norm_calls if c != 'un']) >= 2:
             st.stats.probe('double_normalize')
         st.seen.append(attr[:6])
+
+    def decoy(self, st):
+        o = call(self.build, st.cfg, _perturbed(st.scene))
+        if not isinstance(o, Raised):
+            for a in ('profile', 'profile_error', 'area'):
+                call(getattr, o, a)
+            call(o.normalize, 'max')
+            if st.cfg['cls'] == 'cog':
+                call(o.calc_ee_at_radius, float(st.scene['radii'][1]))
 
     def simpler_cfgs(self, cfg):
         for k, v in (('mask', False), ('error', False), ('unit', False),
@@ -555,6 +629,16 @@ class ApertureFamily:
             return call(lambda: {p: getattr(obj, p) for p in obj._params})
         return call(getattr, obj, what)
 
+    def decoy(self, st):
+        # same class and parameters at other positions, used with a mask
+        pos = np.atleast_2d(np.array(st.positions, dtype=float)) + 1.7
+        o = call(self._make, st.cfg['cls'], pos if pos.shape[0] > 1
+                 else pos[0], st.params)
+        if not isinstance(o, Raised):
+            for w in ('to_mask_exact', 'area_overlap_masked',
+                      'do_photometry_masked', 'bbox'):
+                self._observe(o, w, st.data * 1.3 + 0.2)
+
     def _valid_state(self, st):
         p = st.params
         for a, b in (('r_in', 'r_out'), ('a_in', 'a_out'), ('b_in', 'b_out'),
@@ -602,8 +686,9 @@ class ApertureFamily:
             return
         val = self._observe(o, what, st.data)
         st.trace.add('read', what, digest(val))
-        fresh = self._make(st.cfg['cls'], st.positions, st.params)
-        exp = self._observe(fresh, what, st.data)
+        exp = _expect(st, lambda: self._observe(
+            self._make(st.cfg['cls'], st.positions, st.params), what,
+            st.data))
         _cmp(st, what, val, exp,
              what=f'{what} after {st.nset} assignments (last {st.last})')
         st.stats.sig(f'aper|{st.cfg["cls"]}|{st.last}>{what}')
@@ -824,8 +909,8 @@ class PSFPhotFamily:
             else:
                 out = self._do_call(o, req)
             st.trace.add('call', digest(out))
-            fresh = self.build(st.cfg, st.scene)
-            exp = self._do_call(fresh, req)
+            exp = _expect(st, lambda: self._do_call(
+                self.build(st.cfg, st.scene), req))
             if isinstance(exp, Raised):
                 st.stats.fault('reject')
             desc = (f'call #{st.ncalls + 1} image={op["image"]} '
@@ -869,6 +954,16 @@ class PSFPhotFamily:
         exp = self._observe(fresh, what, req[0], st.cfg)
         _cmp(st, what, val, exp,
              what=f'{what} after calls {st.hist}')
+
+    def decoy(self, st):
+        o = call(self.build, st.cfg, st.scene)
+        if not isinstance(o, Raised):
+            img = dec(st.scene['images'][0]['data']) * 1.4 + 0.3
+            from astropy.table import Table
+            t = Table()
+            t['x'] = [11.0, 20.5]
+            t['y'] = [9.0, 17.5]
+            call(o, img, init_params=t)
 
     def simpler_cfgs(self, cfg):
         for k, v in (('localbkg', False), ('xy_bounds', None),
@@ -972,12 +1067,19 @@ class FinderFamily:
                         else mask.copy())
         out = run(st.obj, own=True)
         st.trace.add('call', digest(out))
-        exp = run(self.build(st.cfg, st.scene))
+        exp = _expect(st, lambda: run(self.build(st.cfg, st.scene)))
         _cmp(st, 'call', out, exp, what=f'call on image {op["image"]} '
              f'after {st.hist}')
         tag = f'{op["image"]}{"m" if op["mask"] else ""}'
         st.stats.sig(f'finder|{st.cfg["cls"]}|{st.hist[-1:]}>{tag}')
         st.hist.append(tag)
+
+    def decoy(self, st):
+        import astropy.units as u
+        o = call(self.build, st.cfg, st.scene)
+        if not isinstance(o, Raised):
+            img = dec(st.scene['images'][1]) * 1.4 + 0.3
+            call(o, img * u.Jy if st.cfg['unit'] else img)
 
     def simpler_cfgs(self, cfg):
         for k, v in (('unit', False), ('xycoords', False),
@@ -1119,11 +1221,30 @@ class FreshMachine(Machine):
         return st
 
     def next_op(self, rng, st):
-        return self.fam.next_op(rng, st)
+        if hasattr(self.fam, 'decoy') and not getattr(st, 'dead', False) \
+                and rng.chance(0.05):
+            return {'op': 'decoy'}
+        op = self.fam.next_op(rng, st)
+        if op is not None and self.variant != 'ellipse':
+            op['iso'] = rng.chance(0.12)
+        return op
 
     def step(self, st, op):
         st.nops += 1
-        self.fam.step(st, op)
+        if op.get('op') == 'decoy':
+            # an unrelated object of the same class at work in the same
+            # process: nothing it does may change what O or a fresh object
+            # report afterwards
+            if not hasattr(self.fam, 'decoy') or getattr(st, 'dead', False):
+                raise Inapplicable('decoy')
+            self.fam.decoy(st)
+            st.stats.probe('decoy_instance_used')
+            return
+        st.iso = bool(op.get('iso'))
+        try:
+            self.fam.step(st, op)
+        finally:
+            st.iso = False
 
     def nontrivial(self, plan, st):
         return st.nops >= 2
